@@ -59,7 +59,10 @@ func findImportClosure(c *Check) *importClosure {
 				uf = f.Name()
 			}
 		}
-		if mf != "" && uf != "" && st.NumFields() == 2 {
+		// the shared file table: a mutex next to a map keyed by a key type of this
+		// package (further fields, e.g. counters, do not change its role)
+		kn := namedOf(kt)
+		if mf != "" && uf != "" && kn != nil && kn.Obj().Pkg() == pk.Types {
 			ic.RL, ic.mapFld, ic.muFld, ic.keyType, ic.elemType = n, mf, uf, kt, et
 		}
 	}
@@ -170,6 +173,17 @@ func checkC05(c *Check) {
 	col := ic.collector
 	c.Okf("ANCHOR", "collector="+fnName(col), p.pos(col.Pos()), "retrieved list %s{%s,%s}, canonicaliser %s, other users %d",
 		ic.RL.Obj().Name(), ic.mapFld, ic.muFld, fnName(ic.canon), len(ic.users))
+
+	// termination of the closure walk: tokens and locks taken by the collector
+	// (and its goroutine closures) are given back on every exit and are not held
+	// while a nested collector call can take them again
+	colSet := map[*ssa.Function]bool{}
+	for _, f := range withClosures(col) {
+		colSet[f] = true
+	}
+	c.Counts["collector_blocking_resources"] = blockingResources(c, "RESOURCE-PAIR", "HELD-ACROSS-NESTING", colSet)
+
+	c05Settings(c)
 
 	// locate read, claim, lookup
 	var read ssa.CallInstruction
@@ -839,4 +853,98 @@ func paramOrFree(v ssa.Value, col *ssa.Function, idx int) bool {
 		}
 	}
 	return false
+}
+
+// c05Settings: the depth limit (and the other parse settings) only take effect
+// when they are handed to the parser that loads the model. Every function that
+// has the user's parse.Settings in reach — as a parameter, or as a field of its
+// receiver — and loads a model must pass them on: a parser it constructs gets
+// Set(settings) before it parses, and a loader it calls receives them. A load
+// path that constructs a parser and never hands it the settings in reach
+// ignores --max-import-depth.
+func c05Settings(c *Check) {
+	p := c.P
+	isSettings := func(t types.Type) bool {
+		if pt, ok := t.(*types.Pointer); ok {
+			t = pt.Elem()
+		}
+		return typeIs(t, repoMod+"/"+parsePkg, "Settings")
+	}
+	n := 0
+	for _, f := range p.RepoFuncs() {
+		if strings.HasSuffix(p.fnFile(f), "_test.go") || f.Parent() != nil {
+			continue
+		}
+		// settings in reach?
+		reach := ""
+		for _, prm := range f.Params {
+			if isSettings(prm.Type()) {
+				reach = "parameter " + prm.Name()
+			}
+			t := prm.Type()
+			if pt, ok := t.Underlying().(*types.Pointer); ok {
+				t = pt.Elem()
+			}
+			if st, ok := t.Underlying().(*types.Struct); ok && prm == f.Params[0] && f.Signature.Recv() != nil {
+				for i := 0; i < st.NumFields(); i++ {
+					if isSettings(st.Field(i).Type()) && !st.Field(i).Embedded() {
+						reach = "receiver field " + st.Field(i).Name()
+					}
+				}
+			}
+		}
+		if reach == "" || fnPkgPath(f) == repoMod+"/"+parsePkg {
+			continue
+		}
+		// parsers constructed here
+		eachInstr(f, func(_ *ssa.BasicBlock, i ssa.Instruction) {
+			cl, ok := i.(*ssa.Call)
+			if !ok {
+				return
+			}
+			sc := staticCallee(cl)
+			if sc == nil || sc.Name() != "NewParser" || fnPkgPath(sc) != repoMod+"/"+parsePkg {
+				return
+			}
+			n++
+			key := fmt.Sprintf("%s|parser gets the settings in reach", fnName(f))
+			set := false
+			var walk func(v ssa.Value, d int)
+			seen := map[ssa.Value]bool{}
+			walk = func(v ssa.Value, d int) {
+				if d > 4 || seen[v] || v.Referrers() == nil {
+					return
+				}
+				seen[v] = true
+				for _, r := range *v.Referrers() {
+					switch y := r.(type) {
+					case ssa.CallInstruction:
+						if o := calleeObj(y); o != nil && o.Name() == "Set" && len(y.Common().Args) >= 2 && isSettings(y.Common().Args[1].Type()) {
+							set = true
+						}
+					case *ssa.Store:
+						if y.Val == v {
+							if al, ok := y.Addr.(*ssa.Alloc); ok {
+								for _, r2 := range *al.Referrers() {
+									if ld, ok := r2.(*ssa.UnOp); ok {
+										walk(ld, d+1)
+									}
+								}
+							}
+						}
+					case *ssa.Phi:
+						walk(y, d+1)
+					}
+				}
+			}
+			walk(cl, 0)
+			c.Cond(set, "SETTINGS-APPLIED", key, p.pos(cl.Pos()),
+				"the parser constructed here is given the parse settings ("+reach+") before it is used",
+				"a parser is constructed and used although the user's parse settings are in reach ("+reach+") and never handed to it: the import-depth limit is ignored on this load path")
+		})
+	}
+	c.Counts["parsers_constructed_with_settings_in_reach"] = n
+	if n == 0 {
+		c.Undecidedf("SETTINGS-APPLIED", "load paths", "-", "no function with parse settings in reach constructs a parser: unresolved anchor")
+	}
 }
